@@ -75,11 +75,13 @@ TABLE = {
            ("ScopeProofs.v", ["scopes_refine", "scope_prefixes_unique", "names_resolve", "unknown_prefix_rejected", "unknown_prefix_never_ok",
                               "duplicate_declaration_rejected", "push_ns_appends", "push_ns_limit", "ns_values_limit_is"])]),
  "C11": dict(
-   intro="C11 -- navigation and iterators agree with the tree: on every arena that is the pre-order\n   encoding of a tree (Arena d t), each link accessor, axis, element variant, text/tail, root_element\n   and iterator of the model's API is the corresponding function of t, and the double-ended iterators\n   implement the deque specification for every sequence of operations.",
-   imports=["From RX.Spec Require Import Tree Deque.", "From RX.Proofs Require Import NavEnc NavLinks NavIter NavAxes NavElem."],
+   intro="C11 -- navigation and iterators agree with the tree: every parsed document is an arena (Arena' d t:\n   the pre-order encoding of a well-formed document tree, NavParse.v), and on every arena each link accessor, axis, element variant, text/tail, root_element\n   and iterator of the model's API is the corresponding function of t, and the double-ended iterators\n   implement the deque specification for every sequence of operations.",
+   imports=["From RX.Spec Require Import Tree Deque.", "From RX.Proofs Require Import NavEnc NavLinks NavIter NavAxes NavElem NavParse."],
    groups=[("NavLinks.v", ["table_ids", "nav_parent", "nav_has_children", "nav_first_child", "nav_last_child", "nav_prev_sibling", "nav_next_sibling", "nav_descendants"]),
            ("NavIter.v", ["nav_children", "children_deque", "slice_deque"]),
            ("NavAxes.v", ["nav_ancestors", "nav_next_siblings", "nav_prev_siblings", "nav_first_children", "nav_last_children"]),
+           ("NavParse.v", ["parse_default_arena", "parse_arena'", "parse_ids_dense'", "parse_descendants_preorder'", "parse_children_rev'",
+                           "parse_root_element'", "parse_nav_total'"]),
            ("NavElem.v", ["nav_has_siblings", "nav_element_variants_exclude_self", "nav_parent_element", "nav_prev_sibling_element",
                           "nav_next_sibling_element", "nav_first_element_child", "nav_last_element_child", "nav_root_element",
                           "nav_root_element_none", "nav_text_storage", "nav_tail_storage"])]),
